@@ -17,8 +17,8 @@ from vlib.core import Stage, fail
 ID = "C17"
 MANIFEST = {
     "category": "exploration",
-    "text": "Generated-input search against an oracle written from the statement: value pools of 1-5 entries (valid AHB expressions of all documented forms, incl. packages) x entered input in {absent, empty, an offered qualifier, a pool qualifier that is not offered, a foreign value} x parent status in {required, optional, forbidden} x content evaluation results incl. UNKNOWN, through validate_data_element_valuepool directly and through validate_segment; a quarter of the cases inject the shipped ContentEvaluationResult based evaluators once and validate the same pool twice under two different content evaluation results that define its packages differently. possible_values must list exactly the qualifiers whose own expression is fulfilled, in pool order, with their meanings; nothing offered or forbidden segment => IS_FORBIDDEN with nothing offered; entered value offered => ..._AND_FILLED and not flagged; entered non-empty value not offered => flagged (format_validation_fulfilled False) and ..._AND_EMPTY; no input => ..._AND_EMPTY, not flagged. Meaning texts of pool entries are generated as well (blank, '0', equal to the qualifier). Stage large-pools (enumerated): pools of 101-150 (thorough: 64-400) entries of which every 3rd / 7th is admissible, through both entry points. A fifth of the pools contain an entry with a well-formed but invalid expression, which is always selectable.",
-    "note": "Trusted: the reference evaluation of entry expressions (vlib/ref.py) and the oracle in this module. Whether a non-forbidden pool is reported REQUIRED or OPTIONAL is not constrained by the statement and not checked. Process configuration by shard (vlib/sut.py; recorded in replay files): plain / parse caches preheated beyond their size / warnings attributed to ahbicht raised as errors / logging fully enabled with every record rendered; one event loop per process or a new one per call; five process time zones; the hash seed is the shard number; namesakes of ahbicht's marshmallow schema classes are registered.",
+    "text": "Generated-input search against an oracle written from the statement: value pools of 1-5 entries (valid AHB expressions of all documented forms, incl. packages) x entered input in {absent, empty, an offered qualifier, a pool qualifier that is not offered, a foreign value} x parent status in {required, optional, forbidden} x content evaluation results incl. UNKNOWN, through validate_data_element_valuepool directly and through validate_segment; a quarter of the cases inject the shipped ContentEvaluationResult based evaluators once and validate the same pool twice under two different content evaluation results that define its packages differently. possible_values must list exactly the qualifiers whose own expression is fulfilled, in pool order, with their meanings; nothing offered or forbidden segment => IS_FORBIDDEN with nothing offered; entered value offered => ..._AND_FILLED and not flagged; entered non-empty value not offered => flagged (format_validation_fulfilled False) and ..._AND_EMPTY; no input => ..._AND_EMPTY, not flagged. Meaning texts of pool entries are generated as well (blank, '0', equal to the qualifier). Stage large-pools (enumerated): pools of 101-150 (thorough: 64-400) entries of which every 3rd / 7th is admissible, through both entry points. A fifth of the pools contain an entry with a well-formed but invalid expression, which is always selectable. A quarter of the entry expressions write every requirement constraint as a package (several packages at different depths).",
+    "note": "Trusted: the reference evaluation of entry expressions (vlib/ref.py) and the oracle in this module. Whether a non-forbidden pool is reported REQUIRED or OPTIONAL is not constrained by the statement and not checked. Process configuration by shard (vlib/sut.py; recorded in replay files): plain / parse caches preheated beyond their size / warnings attributed to ahbicht raised as errors / logging fully enabled with every record rendered; one event loop per process or a new one per call; five process time zones; the hash seed is the shard number; namesakes of ahbicht's marshmallow schema classes are registered. Every registry of evaluators / providers / resolvers that the harness builds (sut.configure) also holds one of each kind that names no EDIFACT format and no format version; these must never be asked.",
     "technique": "property-based testing against a reference predicate (offered set computed by the reference evaluator)",
 }
 LEVEL = "exploration"
